@@ -207,6 +207,11 @@ func collectChecked(c *core.Case, class string, t *json.Tokenizer, in []byte) (t
 		if start < 0 || len(t.Value) == 0 || unsafe.SliceData(t.Value) != unsafe.SliceData(in[start:end]) {
 			c.Violation(class, "value-not-subslice", fmt.Sprintf("token %q of %q is not in[%d:%d]", t.Value, trunc(in), start, end), map[string]any{"doc": string(in)})
 		}
+		// punctuation and closing delimiters are not values: no kind (Kind is "the kind of the
+		// value the tokenizer is positioned on"), in particular not the previous token's
+		if d := t.Delim; (d == ',' || d == ':' || d == '}' || d == ']') && t.Kind() != json.Undefined {
+			c.Violation(class, "kind-of-punctuation", fmt.Sprintf("token %q of %q reports Kind %v", t.Value, trunc(in), t.Kind()), map[string]any{"doc": string(in)})
+		}
 		// accessors that need the live tokenizer
 		rv := t.Value
 		switch {
@@ -601,7 +606,7 @@ func around(ts []tok, i int) []tok {
 func init() {
 	core.Register(&core.Monitor{
 		Prop:    "C17",
-		Rule:    "valid-docs: generated valid documents (random grammar with hostile spellings, plus deep nesting to 200, sibling lists to 1500, empty containers in non-empty ones, keys after nested objects): concatenated Values == encoding/json.Compact; every non-comma/colon token is matched with encoding/json.Decoder.Token (UseNumber) and Depth/Index/IsKey compared with the values derived from that stream; Value must be the sub-slice of the input ending Remaining() bytes before its end (pointer identity); Kind, RawValue predicates, String/Unquote/AppendUnquote, Int/Uint/Float/Bool compared with std's decoded token. arbitrary + token-sequences (all sequences of 2-4 tokens over a 40-token alphabet): no panic, at most len+1 successful Next, Next stays false and Err stays set after an error; documents std accepts also go through the exact-stream check. histories: Reset after 1-3 earlier documents (consumed fully / partially / to an error, other tokenizers sharing the stack pool in between) must give the same stream as a new tokenizer; a tokenizer paused mid-document while others run must give its solo stream. Distinct by document hash; non-trivial = non-empty.",
+		Rule:    "valid-docs: generated valid documents (random grammar with hostile spellings, plus deep nesting to 200, sibling lists to 1500, empty containers in non-empty ones, keys after nested objects): concatenated Values == encoding/json.Compact; every non-comma/colon token is matched with encoding/json.Decoder.Token (UseNumber) and Depth/Index/IsKey compared with the values derived from that stream; Value must be the sub-slice of the input ending Remaining() bytes before its end (pointer identity); Kind (Undefined on commas, colons and closing delimiters), RawValue predicates, String/Unquote/AppendUnquote, Int/Uint/Float/Bool compared with std's decoded token. arbitrary + token-sequences (all sequences of 2-4 tokens over a 40-token alphabet): no panic, at most len+1 successful Next, Next stays false and Err stays set after an error; documents std accepts also go through the exact-stream check. histories: Reset after 1-3 earlier documents (consumed fully / partially / to an error, other tokenizers sharing the stack pool in between) must give the same stream as a new tokenizer; a tokenizer paused mid-document while others run must give its solo stream. Distinct by document hash; non-trivial = non-empty.",
 		Trusted: []string{"encoding/json (go1.23.5): Decoder.Token, Compact, Unmarshal of string tokens, Valid", "strconv for number values", "the depth/index/key tracker in mon/c17.refTokens"},
 		Subs: []core.Sub{
 			{Name: "valid-docs", N: core.Const(30000, 400000), Run: runValidDocs},
